@@ -320,6 +320,38 @@ func (t *procTr) block(list []ast.Stmt, ind string) ([]string, error) {
 				return nil, err
 			}
 			out = append(out, body...)
+		case *ast.RangeStmt:
+			// search loop: `for _, v := range L { if C(v) { return R } }`  =  `if L.any (fun v => C v) then return R`
+			v, okv := x.Value.(*ast.Ident)
+			if x.Tok != token.DEFINE || !okv || len(x.Body.List) != 1 {
+				return nil, fmt.Errorf("untranslatable loop %q", norm(text(st)))
+			}
+			if k, ok := x.Key.(*ast.Ident); x.Key != nil && (!ok || k.Name != "_") {
+				return nil, fmt.Errorf("untranslatable loop %q", norm(text(st)))
+			}
+			is, ok := x.Body.List[0].(*ast.IfStmt)
+			if !ok || is.Init != nil || is.Else != nil || len(is.Body.List) != 1 {
+				return nil, fmt.Errorf("untranslatable loop %q", norm(text(st)))
+			}
+			rs, ok := is.Body.List[0].(*ast.ReturnStmt)
+			if !ok {
+				return nil, fmt.Errorf("untranslatable loop %q", norm(text(st)))
+			}
+			lst, err := t.expr(x.X)
+			if err != nil {
+				return nil, err
+			}
+			t.decl[v.Name] = true
+			c, err := t.expr(is.Cond)
+			delete(t.decl, v.Name)
+			if err != nil {
+				return nil, err
+			}
+			r, err := t.ret(rs)
+			if err != nil {
+				return nil, err
+			}
+			out = append(out, ind+"if "+lst+".any (fun "+leanIdent(v.Name)+" => "+c+") then", ind+"  "+r)
 		case *ast.ReturnStmt:
 			s, err := t.ret(x)
 			if err != nil {
@@ -490,6 +522,19 @@ func genProcs(repo, out string) {
 			atoms: with(mk, map[string]string{"pe.baselineAdminNetpol == nil": "(!hasBANP)"}),
 			calls: map[string]string{"pe.baselineAdminNetpol.Selects(dst, true)": "selectsDstRes", "pe.baselineAdminNetpol.Selects(src, false)": "selectsSrcRes",
 				"pe.baselineAdminNetpol.GetIngressPolicyConns(src, dst)": "ingressConnsRes", "pe.baselineAdminNetpol.GetEgressPolicyConns(dst)": "egressConnsRes"}},
+		{file: k8sdir + "netpol.go", fn: "NetworkPolicy.policyAffectsDirection", lean: "policyAffectsDirection",
+			sig: "(types : List Dir) (direction : Dir) (nEgress : Nat) : Except Err Bool", pure: true,
+			atoms: map[string]string{"len(np.Spec.PolicyTypes)": "types.length", "np.Spec.PolicyTypes": "types", "netv1.PolicyTypeIngress": "Dir.ingress",
+				"len(np.Spec.Egress)": "nEgress"}},
+		{file: k8sdir + "netpol.go", fn: "doesRulePortContain", lean: "doesRulePortContain",
+			sig: "(sameProtocol : Bool) (ruleStartPort ruleEndPort otherPort : Int) : Except Err Bool", pure: true,
+			atoms: map[string]string{"strings.EqualFold(ruleProtocol, otherProtocol)": "sameProtocol",
+				"isEmptyPortRange(ruleStartPort, ruleEndPort)": "(NetPol.isEmptyPortRange ruleStartPort ruleEndPort)"}},
+		{file: "pkg/netpol/connlist/connlist.go", fn: "ConnlistAnalyzer.includePairOfWorkloads", lean: "includePairOfWorkloads",
+			sig: "(srcIsIP dstIsIP : Bool) (srcStr dstStr : String) (exposure includeRep : Bool) (focus : String) (srcFocus srcRep dstFocus dstRep : Bool) : Except Err Bool", pure: true,
+			atoms: map[string]string{"src.IsPeerIPType()": "srcIsIP", "dst.IsPeerIPType()": "dstIsIP", "src.String()": "srcStr", "dst.String()": "dstStr",
+				"ca.exposureAnalysis": "exposure", "ca.includePairWithRepresentativePeer(pe, src, dst)": "includeRep", "ca.focusWorkload": "focus",
+				"ca.isPeerFocusWorkload(src)": "srcFocus", "pe.IsRepresentativePeer(src)": "srcRep", "ca.isPeerFocusWorkload(dst)": "dstFocus", "pe.IsRepresentativePeer(dst)": "dstRep"}},
 		{file: "pkg/netpol/eval/check_eval.go", fn: "isAllowedByANPCapturedRes", lean: "isAllowedByANPCapturedRes",
 			sig:   "(anpRes : RuleRes) : Except Err (Bool × Bool)",
 			atoms: map[string]string{"k8s.Pass": "RuleRes.pass", "k8s.Allow": "RuleRes.allow", "k8s.Deny": "RuleRes.deny"}, errs: badAction},
